@@ -39,7 +39,11 @@ Record tcase := {
   o_seen : list (list Z);     (* chunks the transform saw (wrap only), panicking page removed *)
   o_sink : list (list Z);
   o_token : Z;                (* continuation token as a number, 0 if none *)
-  o_rerun : Z                 (* entities sunk by a second run; -1 = not run *)
+  o_rerun : Z;                (* entities sunk by a second run; -1 = not run *)
+  (* copy mode (content-preserving transforms into a real DatasetSink, beside a plain copy job without transform):
+     (sink entities = plain copy's entities, change-log length of the sink, of the plain copy's sink,
+      changes added by a second run from scratch, changes added by a further full-sync run); None = not a copy case *)
+  o_copy : option (bool * Z * Z * Z * Z)
 }.
 
 Definition out_code (r : run_out) : N := match r with ROk => 0 | RErr => 1 | RPanic => 2 end%N.
@@ -58,13 +62,29 @@ Definition nonempty (l : list Z) : bool := match l with [] => false | _ => true 
 
 (** property-level projection that is compared: outcome, what the transform saw
     (flattened), the batches the sink got, the token *)
+(** copy mode: the transform preserves contents, so the sink must hold what the model says reached it, and a re-run
+    of the same entities adds no change (DatasetSink stores only what differs; Model/Store identical_iff) *)
+Definition agree_copy (c : tcase) (oc : N) (outs : list (list Z)) (cp : bool * Z * Z * Z * Z) : bool :=
+  let '(eq, dch, rch, re, fu) := cp in
+  let src := zrange 0 (Z.to_nat (c_n c)) in
+  N.eqb oc (o_outcome c)
+  && (if N.eqb oc 0 then
+        Bool.eqb eq (zlist_eqb (concat outs) src)
+        && Z.eqb rch (c_n c) && Z.eqb dch (Z.of_nat (length (concat outs)))
+        && Z.eqb re 0 && Z.eqb fu 0
+      else true).
+
 Definition agree (m : part_mode) (c : tcase) : bool :=
   let '(oc, ins, outs, tok, rerun) := predict m c in
+  match o_copy c with
+  | Some cp => agree_copy c oc outs cp
+  | None =>
   N.eqb oc (o_outcome c)
   && (if c_wrap c then zlist_eqb (concat ins) (concat (o_seen c)) else true)
   && zlistlist_eqb outs (o_sink c)
   && Z.eqb tok (o_token c)
-  && Z.eqb rerun (o_rerun c).
+  && Z.eqb rerun (o_rerun c)
+  end.
 
 (** exact chunk boundaries (reported as drift information only) *)
 Definition agree_chunks (m : part_mode) (c : tcase) : bool :=
@@ -74,6 +94,11 @@ Definition agree_chunks (m : part_mode) (c : tcase) : bool :=
 (** the executable spec S, evaluated on the implementation's observations only *)
 Definition spec_ok (c : tcase) : bool :=
   let src := zrange 0 (Z.to_nat (c_n c)) in
+  match o_copy c with
+  | Some (eq, dch, rch, re, fu) =>
+    (* equivalent to a plain copy; running it again produces no new change *)
+    N.eqb (o_outcome c) 0 && eq && Z.eqb dch rch && Z.eqb re 0 && Z.eqb fu 0
+  | None =>
   N.eqb (o_outcome c) 0
   && (if c_wrap c then zlist_eqb (concat (o_seen c)) src else true)
   && (match c_kind c with
@@ -81,7 +106,8 @@ Definition spec_ok (c : tcase) : bool :=
       | k => zlist_eqb (concat (o_sink c)) (flat_map (g_of k) src)
       end)
   && Z.eqb (o_token c) (c_n c)
-  && (if c_full c then true else Z.eqb (o_rerun c) 0).
+  && (if c_full c then true else Z.eqb (o_rerun c) 0)
+  end.
 
 (** [mismatches under PRound; mismatches under PCeilClip; spec failures on I;
      chunk-boundary drift under PRound; under PCeilClip] *)
